@@ -93,6 +93,15 @@ def _case(draw):
     base['packages'] = draw(st.lists(st.sampled_from(['gobject-2.0', 'gio-2.0', 'foo-1.0', 'zlib']), max_size=3, unique=True))
     base['includes'] = draw(st.sampled_from([['Gio-2.0'], ['Gio-2.0', 'GModule-2.0'], ['GModule-2.0', 'Gio-2.0', 'GObject-2.0'],
                                              ['GLib-2.0', 'Gio-2.0', 'GObject-2.0', 'GModule-2.0']]))
+    # prefix configurations: several identifier prefixes, symbol prefixes given or derived from them
+    base['ns'] = dict(base['ns'], **draw(st.sampled_from([
+        {'id_prefixes': ['Foo'], 'sym_prefixes': ['foo']},
+        {'id_prefixes': ['Foo'], 'sym_prefixes': None},
+        {'id_prefixes': ['Foo', 'FooX'], 'sym_prefixes': None},
+        {'id_prefixes': ['FooX', 'Foo', 'Bar'], 'sym_prefixes': None},
+        {'id_prefixes': ['Foo', 'Bar'], 'sym_prefixes': ['foo', 'bar']},
+        {'id_prefixes': ['Bar', 'Foo', 'Baz', 'Qux'], 'sym_prefixes': None},
+    ])))
     base['c_includes'] = draw(st.lists(st.sampled_from(['foo.h', 'foo-extra.h', 'a.h']), max_size=3, unique=True))
     return base
 
